@@ -426,10 +426,17 @@ pub trait PixelDataWriter {
         for frame in 0..frames {
             let mut frame_data = Vec::new();
             out = self.encode_frame(src, frame, options.clone(), &mut frame_data)?;
+            // a fragment always has an even length:
+            // pad the encoded frame here, so that the fragment in the data set
+            // is the fragment that gets written
+            // (and its length the one that counts for the total length)
+            if frame_data.len() % 2 == 1 {
+                frame_data.push(0);
+            }
             offset_table.push(offset);
-            // item header plus fragment data (padded to even length when written)
+            // item header plus fragment data
             let len = frame_data.len() as u32;
-            offset += 8 + len + len % 2;
+            offset += 8 + len;
             dst.push(frame_data);
         }
         Ok(out)
